@@ -17,6 +17,7 @@ import (
 
 	"verif/internal/canon"
 	"verif/internal/engine"
+	"verif/internal/jsonref"
 	"verif/internal/universe"
 )
 
@@ -121,7 +122,21 @@ func c05WriteStruct(v reflect.Value, expanded bool) any {
 				continue
 			}
 			lm := map[string]any{}
+			plain := 0
 			for _, e := range n {
+				if e.Ref == ap.NilLangRef || e.Ref == "" {
+					plain++
+				}
+			}
+			for _, e := range n {
+				if e.Ref == ap.NilLangRef || e.Ref == "" {
+					if !expanded && plain == 1 {
+						m[term] = string(e.Value) // the way most implementations write it: plain text beside the map
+						continue
+					}
+					lm["und"] = string(e.Value)
+					continue
+				}
 				lm[string(e.Ref)] = string(e.Value)
 			}
 			m[term+"Map"] = lm
@@ -224,6 +239,9 @@ func c05RefStruct(st *universe.Struct, m map[string]any) *canon.Node {
 				case map[string]any:
 					for tag, txt := range lv {
 						if s, ok := txt.(string); ok && s != "" {
+							if tag == "und" || tag == "" {
+								tag = "-" // BCP 47 "undetermined" is how a language map says "no tag"
+							}
 							lang = append(lang, [2]string{tag, s})
 						}
 					}
@@ -256,7 +274,7 @@ func c05RefStruct(st *universe.Struct, m map[string]any) *canon.Node {
 		case universe.KTime:
 			if s, ok := raw.(string); ok {
 				if tm, err := time.Parse(time.RFC3339Nano, s); err == nil && !tm.IsZero() {
-					c = &canon.Node{K: "time", S: tm.UTC().Format(time.RFC3339Nano)}
+					c = &canon.Node{K: "time", S: tm.UTC().Truncate(time.Second).Format(time.RFC3339Nano)} // N2: whole seconds, as canon.Of in JSON mode
 				}
 			}
 		case universe.KDuration:
@@ -445,6 +463,78 @@ func c05Run(c *engine.Ctx) {
 		}
 		gen(r)
 	}
+	// the same document in other legal presentations (RFC 8259 / RFC 3339 leave these to the writer): white space, \uXXXX
+	// escapes in every string and member name, members in reverse order ("type" and "id" late), explicit null members,
+	// "@context" first, instants with a numeric zone offset and a fraction
+	zone := time.FixedZone("", 2*3600)
+	presentations := []struct {
+		name string
+		opts func(st *universe.Struct) jsonref.RenderOpts
+	}{
+		{"indented", func(*universe.Struct) jsonref.RenderOpts { return jsonref.RenderOpts{Indent: true} }},
+		{"escaped", func(*universe.Struct) jsonref.RenderOpts { return jsonref.RenderOpts{EscapeAll: true} }},
+		{"reversed", func(*universe.Struct) jsonref.RenderOpts { return jsonref.RenderOpts{ReverseOrder: true} }},
+		{"nulls", func(st *universe.Struct) jsonref.RenderOpts {
+			var names []string
+			for _, f := range st.PropertyFields() {
+				names = append(names, "x-null-"+f.Term) // never collides with a set member
+			}
+			return jsonref.RenderOpts{NullMembers: names[:3]}
+		}},
+		{"context", func(*universe.Struct) jsonref.RenderOpts { return jsonref.RenderOpts{Context: true, Indent: true} }},
+		{"zone-offset", func(*universe.Struct) jsonref.RenderOpts {
+			return jsonref.RenderOpts{MapString: func(s string) string {
+				if tm, err := time.Parse(time.RFC3339Nano, s); err == nil && len(s) >= 20 {
+					return tm.Add(250 * time.Millisecond).In(zone).Format("2006-01-02T15:04:05.000Z07:00")
+				}
+				return s
+			}}
+		}},
+	}
+	present := func(r universe.Recipe) {
+		if r.TypeName == "" && r.Struct.Name != "Object" {
+			return
+		}
+		for _, p := range presentations {
+			p := p
+			c.Do("C05|presented|"+r.Struct.Name, func() string { return p.name + " presentation of the document for " + r.String() }, func(t *engine.T) {
+				x := r.Build()
+				want := canon.Of(x, canon.JSON)
+				rv := reflect.ValueOf(x)
+				if rv.Kind() == reflect.Pointer {
+					rv = rv.Elem()
+				}
+				plain, err := json.Marshal(c05WriteStruct(rv, false))
+				if err != nil {
+					t.Fail("C05|harness|writer", "encoding/json failed: %v", err)
+					return
+				}
+				node, err := jsonref.Parse(plain)
+				if err != nil {
+					t.Fail("C05|harness|writer", "own document does not parse: %v", err)
+					return
+				}
+				docBytes := jsonref.Render(node, p.opts(r.Struct))
+				t.State(engine.Hash64(p.name, want.String()), len(r.Sets) > 0)
+				doc, perr := c05ParseDoc(docBytes)
+				if perr != nil {
+					t.Fail("C05|harness|renderer|"+p.name, "the rendered presentation is not valid JSON (machinery defect): %v\n%s", perr, docBytes)
+					return
+				}
+				if ref := c05Ref(doc, true); !canon.Equal(ref, want) {
+					ds := canon.Diff(want, ref)
+					t.Fail("C05|harness|writer-vs-reference|"+r.Struct.Name+"|"+canon.LastTerm(ds[0].Path), "renderer and reference decoder disagree (machinery defect): %s\ndoc: %s", ds[0], docBytes)
+					return
+				}
+				c05Judge(t, "presented:"+p.name, r.Struct.Name, docBytes, want)
+			})
+		}
+	}
+	for i := range universe.Structs {
+		s := &universe.Structs[i]
+		universe.Level1(s, universe.JSON, c.Quick(), present)
+		universe.Saturated(s, universe.JSON, present)
+	}
 	for i := range universe.Structs {
 		s := &universe.Structs[i]
 		universe.Level0(s, named)
@@ -466,6 +556,10 @@ func c05Run(c *engine.Ctx) {
 		}
 	}
 	universe.Scale(named)
+	universe.IRIPresentations(named)
+	for i := range universe.Structs {
+		universe.GenericNames(&universe.Structs[i], universe.JSON, named)
+	}
 	for i := range universe.Structs {
 		universe.SharedIdentity(&universe.Structs[i], named)
 	}
@@ -475,7 +569,7 @@ func c05Run(c *engine.Ctx) {
 		}
 	}
 	// (2) mock documents and their single mutations
-	files, _ := filepath.Glob("/repo/tests/mocks/*.json")
+	files, _ := filepath.Glob(repoDir() + "/tests/mocks/*.json")
 	sort.Strings(files)
 	for _, file := range files {
 		base := filepath.Base(file)
